@@ -332,7 +332,7 @@ def make_alt(rng):
         alt_t += tsep + "%02d" % s
     if rng.random() < 0.35:
         # decimal fraction on the last spelled unit
-        k = rng.randint(1, 4)
+        k = rng.choice((1, 2, 3, 4, 6, 7, 9, 12))
         digits = "%0*d" % (k, rng.randrange(1, 10 ** k))
         point = rng.choice(",.")
         alt_t += point + digits
